@@ -257,6 +257,10 @@ class BleAccessory:
         self.pending_tlv_frags: list[bytes] = []
         self.frag_size = 512
         self.on_secure = None
+        self.echo_iids: set[int] = set()
+        self.echo_log: list = []
+        self.echo_reply = None
+        self.echo_status = ST_OK
 
     # ---- link ---------------------------------------------------------------------------
     def on_connect(self) -> None:
@@ -365,6 +369,11 @@ class BleAccessory:
     def _process(self, c: GChar, opcode: int, tid: int, iid: int, body: bytes | None, secure: bool) -> None:
         rec = {"handle": c.handle, "opcode": opcode, "tid": tid, "iid": iid, "body": body, "secure": secure}
         self.requests.append(rec)
+        if iid in self.echo_iids and opcode == OP_WRITE and iid == c.iid:
+            # test endpoint: arbitrary (non-TLV) body, answered with a body chosen by echo_reply
+            self.echo_log.append(body)
+            reply = self.echo_reply(body) if self.echo_reply else body
+            return self._respond(c, tid, self.echo_status, reply, secure)
         forced = self.status_plan.get((opcode, iid))
         if forced:
             self._respond(c, tid, forced, None, secure)
